@@ -151,6 +151,12 @@ def run(spec, ctx):
             yield "parsed", doc, None
             yield "text", jtext, None
             yield "stringio", io.StringIO(jtext), None
+            if r.random() < 0.3:
+                # a binary stream in another Unicode encoding (json detects utf-8/16/32 from the bytes)
+                from .c08 import STREAM_FORMS, stream_of
+
+                form = r.choice(STREAM_FORMS[2:])
+                yield form, stream_of(doc, form, r.random() < 0.5), None
             if r.random() < 0.15:
                 f = tempfile.TemporaryFile("w+", encoding="utf-8")
                 f.write(jtext)
